@@ -63,7 +63,7 @@ RULE = ("case kind by index mod 8: 0-3 a random mixed circuit on <= 4 wires "
         "6 a pure quantum circuit; 7 single Measure/Encode/Discard/MixedState "
         "variants and Born-rule set-ups on a random state.  Non-trivial = at "
         "least 3 boxes; distinct by the repr of the circuit(s).")
-SIZES = {"quick": (16, 48), "thorough": (64, 256)}
+SIZES = {"quick": (16, 48), "thorough": (64, 224)}
 TIMEOUT = {"quick": 600, "thorough": 5400}
 COVER = {
     "discopy.quantum.cqmap:Functor._ob": 0.8,
@@ -79,21 +79,25 @@ COVER = {
     "discopy.quantum.circuit:Circuit.is_mixed": 0.9,
     "discopy.quantum.circuit:Circuit.init_and_discard": 0.9,
 }
-MIN_EVALS = {
-    "quick": {"superoperator-equals-cq_sim": 400, "doubling": 60,
-              "dagger-evaluates-to-adjoint": 200, "discard-is-marginal": 180,
-              "adjoint-measure-encode": 90, "adjoint-discard-mixedstate": 250,
-              "born-rule": 280, "born-marginal": 25, "trace-preserving": 90,
-              "get_counts-equals-evaluation": 150,
-              "measure-equals-evaluation": 85, "default-route": 380},
-    "thorough": {"superoperator-equals-cq_sim": 8000, "doubling": 1200,
-                 "dagger-evaluates-to-adjoint": 4000,
-                 "discard-is-marginal": 3600,
-                 "adjoint-measure-encode": 1800,
-                 "adjoint-discard-mixedstate": 5000, "born-rule": 5600,
-                 "born-marginal": 500, "trace-preserving": 1800,
-                 "get_counts-equals-evaluation": 3000,
-                 "measure-equals-evaluation": 1700, "default-route": 7600}}
+MIN_EVALS = {     # ~85 % of what the tree reaches (quick 768, thorough 14336 cases)
+    "quick": {"superoperator-equals-cq_sim": 650, "doubling": 80,
+              "dagger-evaluates-to-adjoint": 320, "discard-is-marginal": 290,
+              "adjoint-measure-encode": 240, "adjoint-discard-mixedstate": 320,
+              "born-rule": 400, "born-marginal": 50, "born-dephasing": 30,
+              "trace-preserving": 160, "probabilities-sum-to-1": 160,
+              "distribution-equals-cq_sim": 160,
+              "get_counts-equals-evaluation": 240,
+              "measure-equals-evaluation": 150, "default-route": 550},
+    "thorough": {"superoperator-equals-cq_sim": 12000, "doubling": 1500,
+                 "dagger-evaluates-to-adjoint": 6000,
+                 "discard-is-marginal": 5500,
+                 "adjoint-measure-encode": 4500,
+                 "adjoint-discard-mixedstate": 6000, "born-rule": 7500,
+                 "born-marginal": 1400, "born-dephasing": 700,
+                 "trace-preserving": 3000, "probabilities-sum-to-1": 3000,
+                 "distribution-equals-cq_sim": 3000,
+                 "get_counts-equals-evaluation": 4500,
+                 "measure-equals-evaluation": 2800, "default-route": 10000}}
 L1 = False     # CQMap.tensor builds ~10^3 small diagrams per evaluation; the hook
                # would take 40 % of the time of a check whose subject is numeric
 ASSUMPTIONS = [
